@@ -11,6 +11,12 @@ TOL_MODEL = 1e-9          # |implementation - Lean Float model|  <= TOL_MODEL  *
 TOL_ORACLE64 = 1e-10      # metamorphic relations on the implementation, float64 (observed: ~1e-15)
 TOL_ORACLE32 = 1e-3       # the same in the default float32 / complex64 configuration (observed: ~1e-6)
 ACTS = ["tanh", "relu", "id"]
+# execution contexts of a forward pass: torch.no_grad, grad mode (input without / with requires_grad),
+# torch.inference_mode (pytorch-lightning's default for validate / test / predict)
+EXEC_MODES = ["no_grad", "grad", "grad_req", "inference", "inference"]
+# long grid axes: primes, 2^k +- 1, 5-smooth and not, > 128, > 256, > 512
+LONG_N = [127, 129, 131, 134, 139, 149, 191, 200, 255, 257, 262, 263, 268, 301, 383, 509, 511, 513, 521, 769, 1000, 1021, 1024, 1031]
+MID_N = [33, 37, 43, 45, 47, 53, 61, 64, 65, 67, 71, 89, 97, 101, 113, 127, 128, 131, 134, 139]
 
 
 def run_driver_parallel(lines, workers=4):
@@ -86,35 +92,97 @@ def gen_shifts(rng, shape):
     return out
 
 
-def gen_layer_case(rng, d, cap, f32=False):
+def gen_layer_case(rng, d, cap, f32=False, long=None):
+    """long = None: small grids; "model": a long 1-D grid with few kept modes (cheap for the Lean driver);
+    "oracle": long axes, any mode regime, property oracles only"""
     shape = gen_shape(rng, d, cap)
     C = rng.randint(1, 3)
     B = rng.choice([1, 1, 2])
-    case = dict(kind="layer", f32=int(f32), shape=shape, C=C, B=B, layer=gen_layer_params(rng, gen_modes(rng, shape), C),
-                x=_nums(rng, B * _prod(shape) * C), shifts=gen_shifts(rng, shape))
+    modes = None
+    if long == "model":
+        shape, C, B = [rng.choice([n for n in LONG_N if n <= 301])], 1, 1
+        modes = [rng.randint(1, 4)]
+    elif long == "oracle":
+        if d == 1:
+            shape = [rng.choice(LONG_N + MID_N)]
+        else:
+            shape = [rng.randint(1, 3) for _ in range(d)]
+            shape[rng.randrange(d)] = rng.choice([n for n in LONG_N if n <= 301])
+        if rng.random() < 0.4:
+            modes = [rng.randint(1, min(12, N // 2 + 1)) for N in shape]
+    case = dict(kind="layer", f32=int(f32), shape=shape, C=C, B=B, layer=gen_layer_params(rng, modes or gen_modes(rng, shape), C),
+                x=_nums(rng, B * _prod(shape) * C), shifts=gen_shifts(rng, shape),
+                mode=rng.choice(EXEC_MODES), train=rng.randint(0, 1))
+    if long == "oracle":
+        case["nomodel"] = 1
+    if d == 1 and rng.random() < 0.3:
+        case["intmode"] = 1                              # mode_num given as a plain int
     if d == 1:
         N, m = shape[0], case["layer"]["modes"][0]
-        band = min(m - 1, (N - 1) // 2)                  # band <= m-1 (kept), 2*band < N (below Nyquist)
+        band = min(m - 1, (N - 1) // 2, 12)              # band <= m-1 (kept), 2*band < N (below Nyquist)
         band = rng.randint(0, band)
         case["res"] = dict(band=band, r=rng.choice([2, 3, 4]), a=_nums(rng, (band + 1) * C * B), b=_nums(rng, (band + 1) * C * B))
     return case
 
 
-def gen_fno_case(rng, d, cap, f32=False):
+def _eye(n):
+    return [DEN if i == j else 0 for i in range(n) for j in range(n)]
+
+
+def gen_fno_case(rng, d, cap, f32=False, long=False):
     shape = gen_shape(rng, d, cap)
+    if long:
+        shape = [rng.choice(LONG_N + MID_N)] if d == 1 else [rng.randint(1, 3), rng.choice([n for n in LONG_N if n <= 301])]
     Cin, C, Cout = rng.randint(1, 2), rng.randint(1, 3), rng.randint(1, 2)
     nl = rng.randint(1, 3)
     B = rng.choice([1, 2])
+    # lifting / projection networks: the default nn.Linear, or user supplied ones
+    up = rng.choice(["default", "default", "identity", "nobias", "mlp"])
+    down = rng.choice(["default", "default", "identity", "nobias", "mlp"])
+    if up == "identity":
+        Cin = C
+    if down == "identity":
+        Cout = C
+    uniform = rng.random() < 0.3                          # scalar constructor arguments shared by all layers
     layers = []
-    for _ in range(nl):
-        p = gen_layer_params(rng, gen_modes(rng, shape), C)
+    for i in range(nl):
+        p = gen_layer_params(rng, layers[0]["modes"] if (uniform and layers) else gen_modes(rng, shape), C)
+        if uniform and layers:
+            for k in ("lin", "skip", "bias"):
+                p[k] = layers[0][k]
+            if not p["lin"]:
+                p["W"], p["b"] = [], []
+            else:
+                p["W"] = p["W"] or _nums(rng, C * C, -24, 24)
+                p["b"] = (p["b"] or _nums(rng, C)) if p["bias"] else []
         p["kern"] = [k // 4 for k in p["kern"]]           # keep the activations out of saturation
-        p["act"] = rng.choice(ACTS)
+        p["act"] = layers[0]["act"] if (uniform and layers) else rng.choice(ACTS)
         layers.append(p)
-    return dict(kind="fno", f32=int(f32), shape=shape, Cin=Cin, C=C, Cout=Cout, B=B, layers=layers,
-                upW=_nums(rng, C * Cin, -16, 16), upb=_nums(rng, C, -16, 16),
-                downW=_nums(rng, Cout * C, -16, 16), downb=_nums(rng, Cout, -16, 16),
-                x=_nums(rng, B * _prod(shape) * Cin, -24, 24), shifts=gen_shifts(rng, shape))
+    case = dict(kind="fno", f32=int(f32), shape=shape, Cin=Cin, C=C, Cout=Cout, B=B, layers=layers, up=up, down=down, uniform=int(uniform),
+                upW=_eye(C) if up == "identity" else _nums(rng, C * Cin, -16, 16),
+                upb=[0] * C if up in ("identity", "nobias") else _nums(rng, C, -16, 16),
+                downW=_eye(C) if down == "identity" else _nums(rng, Cout * C, -16, 16),
+                downb=[0] * Cout if down in ("identity", "nobias") else _nums(rng, Cout, -16, 16),
+                x=_nums(rng, B * _prod(shape) * Cin, -24, 24), shifts=gen_shifts(rng, shape),
+                mode=rng.choice(EXEC_MODES), train=rng.randint(0, 1))
+    for side, kind, cin, cout in (("upmlp", up, Cin, C), ("downmlp", down, C, Cout)):
+        if kind == "mlp":
+            h = rng.randint(1, 3)
+            case[side] = dict(h=h, W1=_nums(rng, h * cin, -16, 16), b1=_nums(rng, h, -16, 16), W2=_nums(rng, cout * h, -16, 16), b2=_nums(rng, cout, -16, 16))
+            case["nomodel"] = 1                           # the driver knows linear lifting / projection only
+    if long:
+        case["nomodel"] = 1
+    return case
+
+
+def gen_bn_case(rng):
+    """batch normalisation over the space axis (space_resolution), freshly initialised: oracles only"""
+    N = rng.choice([2, 3, 4, 5, 8, 9, 12, 16])
+    C, B = rng.randint(1, 2), 2
+    case = dict(kind="layer", f32=0, shape=[N], C=C, B=B, layer=gen_layer_params(rng, gen_modes(rng, [N]), C),
+                x=_nums(rng, B * N * C), shifts=gen_shifts(rng, [N]), mode=rng.choice(EXEC_MODES), train=rng.randint(0, 1),
+                bn=1, nomodel=1)
+    return case
 
 
 def _partner(n):
@@ -136,7 +204,7 @@ def gen_history_case(rng, d, sub):
     if not any(a[:-1] == b[:-1] and a[-1] != b[-1] and a[-1] // 2 == b[-1] // 2 for a in shapes for b in shapes):
         shapes.append(last(shapes[0], _partner(shapes[0][-1])))       # always one even/odd pair with equal spectrum shape
     modes = gen_modes(rng, s0)
-    case = dict(kind="history", sub=sub, f32=0, shapes=shapes, B=1)
+    case = dict(kind="history", sub=sub, f32=0, shapes=shapes, B=1, mode=rng.choice(EXEC_MODES), train=rng.randint(0, 1))
     if sub == "layer":
         C = rng.randint(1, 2)
         case.update(C=C, layer=gen_layer_params(rng, modes, C))
@@ -193,7 +261,8 @@ def gen_named_case(rng, d, variant):
     B = rng.choice([1, 2, 3])
     names = ["f", "g", "h"][:rng.choice([2, 2, 3])]
     allv = [[n, rng.randint(1, 2)] for n in names]
-    case = dict(kind="named", variant=variant, f32=0, shape=shape, B=B, shifts=gen_shifts(rng, shape))
+    case = dict(kind="named", variant=variant, f32=0, shape=shape, B=B, shifts=gen_shifts(rng, shape),
+                mode=rng.choice(EXEC_MODES), train=rng.randint(0, 1))
     if variant == "perm":
         inS = _permuted(rng, allv) if rng.random() < 0.5 else allv
         outS = [["u", rng.randint(1, 2)]]
@@ -243,6 +312,17 @@ def gen_cases(ctx):
         c["layer"]["modes"] = c["layer"]["modes"][:1]
         c["layer"]["kern"] = _nums(rng, 2 * c["layer"]["modes"][0] * c["C"])
         cases.append(c)
+    # long grid axes (primes, 2^k +- 1, 5-smooth or not, > 128 / 256 / 512)
+    for _ in range(ctx.scale(3, 30)):
+        cases.append(gen_layer_case(rng, 1, cap, long="model"))
+    for _ in range(ctx.scale(24, 240)):
+        # 1-D and 2-D only: torch 2.14 (CPU) corrupts the heap in irfftn over three axes when the middle axis has >= 128
+        # nodes and the leading one >= 2 (reproduced with torch alone: irfftn(randn(1,2,12,2,2, cdouble), s=(2,301,3), dim=[1,2,3]))
+        cases.append(gen_layer_case(rng, rng.choice([1, 1, 1, 2, 2]), cap, long="oracle", f32=rng.random() < 0.2))
+    for _ in range(ctx.scale(8, 80)):
+        cases.append(gen_fno_case(rng, rng.choice([1, 1, 2]), cap, long=True))
+    for _ in range(ctx.scale(6, 60)):
+        cases.append(gen_bn_case(rng))
     # histories: the same object on several grids
     for _ in range(ctx.scale(36, 360)):
         cases.append(gen_history_case(rng, rng.choice([1, 1, 1, 2, 2, 3]), rng.choice(["layer", "layer", "fno"])))
@@ -260,11 +340,16 @@ def _t(torch, nums, shape, dtype):
     return (torch.tensor(nums, dtype=torch.float64) / DEN).reshape(shape).to(dtype)
 
 
-def build_layer(torch, FourierLayer, p, C, f32):
+def build_layer(torch, FourierLayer, p, C, f32, case=None):
+    case = case or {}
     rd, cd = (torch.float32, torch.complex64) if f32 else (torch.float64, torch.complex128)
-    L = FourierLayer(C, tuple(p["modes"]), linear_connection=bool(p["lin"]), skip_connection=bool(p["skip"]),
-                     bias=bool(p["bias"]))
+    kw = dict(space_res=case["shape"][0]) if case.get("bn") else {}
+    L = FourierLayer(C, p["modes"][0] if case.get("intmode") else tuple(p["modes"]), linear_connection=bool(p["lin"]),
+                     skip_connection=bool(p["skip"]), bias=bool(p["bias"]), **kw)
+    if not f32:
+        L = L.double()
     set_layer(torch, L, p, C, rd, cd)
+    L.train(bool(case.get("train", 0)))
     return L
 
 
@@ -281,13 +366,38 @@ def bits(torch, t):
     return t.detach().contiguous().view(torch.int32 if t.dtype == torch.float32 else torch.int64).clone()
 
 
-def check_relations(torch, f, x, shifts, tol, what, problems):
+def run_in(torch, mode, f, t):
+    """one forward pass in the given execution context; the result is detached"""
+    if mode == "inference":
+        with torch.inference_mode():
+            return f(t)
+    if mode in ("grad", "grad_req"):
+        with torch.enable_grad():
+            return f(t).detach()
+    with torch.no_grad():
+        return f(t)
+
+
+def guarded_call(torch, mode, f, t, what, problems):
+    """forward pass + "the input tensor is left alone": bit pattern and version counter of the caller's tensor"""
+    if mode == "grad_req":
+        t = t.detach().clone().requires_grad_(True)
+    t0, v0 = bits(torch, t), t._version
+    y = run_in(torch, mode, f, t)
+    if not torch.equal(bits(torch, t), t0):
+        problems.append(f"{what} [{mode}]: the input tensor was modified by the forward pass "
+                        f"(max change {float((t.detach() - t0.view(t.dtype)).abs().max()):.3g})")
+    elif t._version != v0:
+        problems.append(f"{what} [{mode}]: the forward pass wrote in place into its input tensor (version counter {v0} -> {t._version})")
+    return y
+
+
+def check_relations(torch, f, x, shifts, tol, what, problems, mode="no_grad"):
     """shift equivariance of the map f on the implementation; f: tensor (B, *shape, C) -> tensor"""
     x0 = bits(torch, x)
-    y = f(x)
-    if not torch.equal(bits(torch, x), x0):
-        problems.append(f"{what}: the input tensor was modified by the forward pass "
-                        f"(max change {float((x - x0.view(x.dtype)).abs().max()):.3g})")
+    n0 = len(problems)
+    y = guarded_call(torch, mode, f, x, what, problems)
+    if len(problems) > n0:
         x = x0.view(x.dtype).clone()
     if tuple(y.shape[:-1]) != tuple(x.shape[:-1]):
         problems.append(f"{what}: output grid {tuple(y.shape[1:-1])} differs from the input grid {tuple(x.shape[1:-1])}")
@@ -298,7 +408,7 @@ def check_relations(torch, f, x, shifts, tol, what, problems):
             dims, amounts = (sh[0] + 1,), (sh[1],)
         else:
             dims, amounts = tuple(range(1, len(sh))), tuple(sh[1:])
-        ys = f(torch.roll(x, amounts, dims))
+        ys = guarded_call(torch, mode, f, torch.roll(x, amounts, dims), what, problems)
         err = float((ys - torch.roll(y, amounts, dims)).abs().max())
         if not err <= tol * scale:
             problems.append(f"{what}: not shift-equivariant: shifting the input by {list(amounts)} along spatial ax"
@@ -310,16 +420,11 @@ def check_relations(torch, f, x, shifts, tol, what, problems):
 def trig_input(torch, res, B, N, C, dtype):
     """samples j/N of sum_p a_p cos(2 pi p t) + b_p sin(2 pi p t), separately per batch row and channel"""
     band = res["band"]
-    x = torch.zeros(B, N, C, dtype=torch.float64)
-    it = 0
-    for bb in range(B):
-        for c in range(C):
-            for p in range(band + 1):
-                a, b = res["a"][it] / DEN, res["b"][it] / DEN
-                it += 1
-                for j in range(N):
-                    th = 2.0 * math.pi * ((p * j) % N) / N
-                    x[bb, j, c] += a * math.cos(th) + b * math.sin(th)
+    a = (torch.tensor(res["a"], dtype=torch.float64) / DEN).reshape(B, C, band + 1)
+    b = (torch.tensor(res["b"], dtype=torch.float64) / DEN).reshape(B, C, band + 1)
+    pj = (torch.arange(band + 1).reshape(-1, 1) * torch.arange(N).reshape(1, -1)) % N
+    th = 2.0 * math.pi * pj.to(torch.float64) / N                       # (band+1, N)
+    x = torch.einsum("bcp,pj->bjc", a, torch.cos(th)) + torch.einsum("bcp,pj->bjc", b, torch.sin(th))
     return x.to(dtype)
 
 
@@ -333,15 +438,17 @@ def eval_layer(case):
     problems = []
     with torch.no_grad():
         try:
-            L = build_layer(torch, _FourierLayer, p, C, f32)
+            mode = case.get("mode", "no_grad")
+            L = build_layer(torch, _FourierLayer, p, C, f32, case)
             x = _t(torch, case["x"], (B, *shape, C), rd)
             tol = TOL_ORACLE32 if f32 else TOL_ORACLE64
-            y = check_relations(torch, L, x, case["shifts"], tol, "_FourierLayer", problems)
+            y = check_relations(torch, L, x, case["shifts"], tol, "_FourierLayer", problems, mode)
             if "res" in case:
                 N, r = shape[0], case["res"]["r"]
                 xc = trig_input(torch, case["res"], B, N, C, rd)
                 xf = trig_input(torch, case["res"], B, r * N, C, rd)
-                yc, yf = L(xc), L(xf)
+                yc = guarded_call(torch, mode, L, xc, "_FourierLayer", problems)
+                yf = guarded_call(torch, mode, L, xf, "_FourierLayer", problems)
                 if tuple(yc.shape) == tuple(xc.shape) and tuple(yf.shape) == tuple(xf.shape):
                     err = float((yf[:, ::r, :] - yc).abs().max())
                     scale = 1.0 + float(yc.abs().max())
@@ -380,26 +487,12 @@ def eval_fno(case):
     rd, cd = (torch.float32, torch.complex64) if f32 else (torch.float64, torch.complex128)
     shape, Cin, C, Cout, B = case["shape"], case["Cin"], case["C"], case["Cout"], case["B"]
     problems = []
-    acts = {"tanh": torch.nn.Tanh, "relu": torch.nn.ReLU, "id": torch.nn.Identity}
     with torch.no_grad():
         try:
-            Fs, Us = tp.spaces.Rn("f", Cin), tp.spaces.Rn("u", Cout)
-            ls = case["layers"]
-            net = FNO(Fs, Us, fourier_layers=len(ls), hidden_channels=C, fourier_modes=[list(l["modes"]) for l in ls],
-                      activations=[acts[l["act"]]() for l in ls], skip_connections=[bool(l["skip"]) for l in ls],
-                      linear_connections=[bool(l["lin"]) for l in ls], bias=[bool(l["bias"]) for l in ls])
-            if not f32:
-                net = net.double()
-            net.channel_up_sampling.weight.data = _t(torch, case["upW"], (C, Cin), rd)
-            net.channel_up_sampling.bias.data = _t(torch, case["upb"], (C,), rd)
-            net.channel_down_sampling.weight.data = _t(torch, case["downW"], (Cout, C), rd)
-            net.channel_down_sampling.bias.data = _t(torch, case["downb"], (Cout,), rd)
-            for i, l in enumerate(ls):
-                set_layer(torch, net.fourier_sequential[2 * i], l, C, rd, cd)
+            net, f = build_fno(tp, torch, case, rd, cd)
             x = _t(torch, case["x"], (B, *shape, Cin), rd)
-            f = lambda t: net(tp.spaces.Points(t, Fs)).as_tensor
             tol = TOL_ORACLE32 if f32 else TOL_ORACLE64
-            y = check_relations(torch, f, x, case["shifts"], tol, "FNO", problems)
+            y = check_relations(torch, f, x, case["shifts"], tol, "FNO", problems, case.get("mode", "no_grad"))
         except Exception as e:
             return dict(error=f"{type(e).__name__}: {e}"[:300], problems=problems)
     return dict(out=y.detach().to(torch.float64), problems=problems)
@@ -429,15 +522,49 @@ def build_fno(tp, torch, case, rd, cd):
     Fs = mk_space(tp, case["inS"]) if "inS" in case else tp.spaces.Rn("f", Cin)
     Us = mk_space(tp, case["outS"]) if "outS" in case else tp.spaces.Rn("u", Cout)
     ls = case["layers"]
-    net = FNO(Fs, Us, fourier_layers=len(ls), hidden_channels=C, fourier_modes=[list(l["modes"]) for l in ls],
-              activations=[acts[l["act"]]() for l in ls], skip_connections=[bool(l["skip"]) for l in ls],
-              linear_connections=[bool(l["lin"]) for l in ls], bias=[bool(l["bias"]) for l in ls])
+
+    class NoLifting(torch.nn.Module):
+        """hands the data on as it is (FNO.forward gives the lifting network a Points object)"""
+        def forward(self, points):
+            return points.as_tensor if hasattr(points, "as_tensor") else points
+
+    def custom(kind, cin, cout, W, mlp):
+        if kind == "identity":
+            return NoLifting() if cin == Cin and cout == C and W is case["upW"] else torch.nn.Identity()
+        if kind == "nobias":
+            lin = torch.nn.Linear(cin, cout, bias=False)
+            lin.weight.data = _t(torch, W, (cout, cin), torch.float32)
+            return lin
+        if kind == "mlp":
+            l1, l2 = torch.nn.Linear(cin, mlp["h"]), torch.nn.Linear(mlp["h"], cout)
+            l1.weight.data, l1.bias.data = _t(torch, mlp["W1"], (mlp["h"], cin), torch.float32), _t(torch, mlp["b1"], (mlp["h"],), torch.float32)
+            l2.weight.data, l2.bias.data = _t(torch, mlp["W2"], (cout, mlp["h"]), torch.float32), _t(torch, mlp["b2"], (cout,), torch.float32)
+            return torch.nn.Sequential(l1, torch.nn.Tanh(), l2)
+        return None
+    up_kind, down_kind = case.get("up", "default"), case.get("down", "default")
+    if case.get("uniform"):
+        # scalar constructor arguments: one value for all layers (a list of d mode counts is only unambiguous when it is
+        # shorter than the number of layers, see FNO.__init__)
+        m0 = ls[0]["modes"]
+        modes = m0[0] if len(m0) == 1 else (list(m0) if len(m0) < len(ls) else [list(l["modes"]) for l in ls])
+        kw = dict(fourier_modes=modes, activations=acts[ls[0]["act"]](), skip_connections=bool(ls[0]["skip"]),
+                  linear_connections=bool(ls[0]["lin"]), bias=bool(ls[0]["bias"]))
+    else:
+        kw = dict(fourier_modes=[list(l["modes"]) for l in ls], activations=[acts[l["act"]]() for l in ls],
+                  skip_connections=[bool(l["skip"]) for l in ls], linear_connections=[bool(l["lin"]) for l in ls],
+                  bias=[bool(l["bias"]) for l in ls])
+    net = FNO(Fs, Us, fourier_layers=len(ls), hidden_channels=C,
+              channel_up_sample_network=custom(up_kind, Cin, C, case["upW"], case.get("upmlp")),
+              channel_down_sample_network=custom(down_kind, C, Cout, case["downW"], case.get("downmlp")), **kw)
     if rd == torch.float64:
         net = net.double()
-    net.channel_up_sampling.weight.data = _t(torch, case["upW"], (C, Cin), rd)
-    net.channel_up_sampling.bias.data = _t(torch, case["upb"], (C,), rd)
-    net.channel_down_sampling.weight.data = _t(torch, case["downW"], (Cout, C), rd)
-    net.channel_down_sampling.bias.data = _t(torch, case["downb"], (Cout,), rd)
+    if up_kind == "default":
+        net.channel_up_sampling.weight.data = _t(torch, case["upW"], (C, Cin), rd)
+        net.channel_up_sampling.bias.data = _t(torch, case["upb"], (C,), rd)
+    if down_kind == "default":
+        net.channel_down_sampling.weight.data = _t(torch, case["downW"], (Cout, C), rd)
+        net.channel_down_sampling.bias.data = _t(torch, case["downb"], (Cout,), rd)
+    net.train(bool(case.get("train", 0)))
     for i, l in enumerate(ls):
         set_layer(torch, net.fourier_sequential[2 * i], l, C, rd, cd)
     return net, (lambda t: net(tp.spaces.Points(t, Fs)).as_tensor)
@@ -456,7 +583,7 @@ def eval_history(case):
     with torch.no_grad():
         try:
             if sub == "layer":
-                f = build_layer(torch, _FourierLayer, case["layer"], case["C"], False)
+                f = build_layer(torch, _FourierLayer, case["layer"], case["C"], False, dict(train=case.get("train", 0)))
             else:
                 _, f = build_fno(tp, torch, case, rd, cd)
         except Exception as e:
@@ -470,7 +597,7 @@ def eval_history(case):
             xs.append(x)
             try:
                 pr = []
-                y = check_relations(torch, f, x, st["shifts"], TOL_ORACLE64, what, pr)
+                y = check_relations(torch, f, x, st["shifts"], TOL_ORACLE64, what, pr, case.get("mode", "no_grad"))
                 problems += pr
                 outs.append(y.detach().to(torch.float64) if tuple(y.shape[:-1]) == tuple(x.shape[:-1]) else None)
             except Exception as e:
@@ -547,7 +674,7 @@ def eval_named(case):
                 f = lambda t, sp=sp: model(tp.spaces.Points(t, sp)).as_tensor
                 what = f"{variant} FNO, input variables listed as {[n for n, _ in layout]}"
                 try:
-                    y = check_relations(torch, f, cols(layout), case["shifts"], TOL_ORACLE64, what, problems)
+                    y = check_relations(torch, f, cols(layout), case["shifts"], TOL_ORACLE64, what, problems, case.get("mode", "no_grad"))
                 except Exception as e:
                     problems.append(f"{what}: raised on a valid input: {type(e).__name__}: {e}"[:400])
                     continue
@@ -628,9 +755,9 @@ def evaluate(case):
     torch.set_num_threads(1)      # tiny tensors; be a good neighbour
     k = case["kind"]
     if k == "layer":
-        return eval_layer(case), ([] if case["f32"] else layer_lines(case))
+        return eval_layer(case), ([] if case["f32"] or case.get("nomodel") else layer_lines(case))
     if k == "fno":
-        return eval_fno(case), ([] if case["f32"] else fno_lines(case))
+        return eval_fno(case), ([] if case["f32"] or case.get("nomodel") else fno_lines(case))
     if k == "malformed":
         return eval_malformed(case), layer_lines(case)[:1]
     if k == "history":
@@ -676,6 +803,7 @@ def judge(rep, case, res, replies):
         name = "_FourierLayer" if case["sub"] == "layer" else "FNO"
         rep.count(f"history:{case['sub']}:d={len(case['shapes'][0])}{':trig' if 'trig' in case else ''}")
         rep.count("history-calls", len(case["shapes"]))
+        rep.count(f"exec:{case.get('mode', 'no_grad')}:{'train' if case.get('train') else 'eval'}")
         pairs = sum(1 for i, a in enumerate(case["shapes"]) for b in case["shapes"][i + 1:]
                     if a[:-1] == b[:-1] and a[-1] != b[-1] and a[-1] // 2 == b[-1] // 2)
         rep.count("history:even-odd-pairs-with-equal-spectrum-shape", pairs)
@@ -707,6 +835,7 @@ def judge(rep, case, res, replies):
         variant = case["variant"]
         rep.count(f"named:{variant}:d={len(case['shape'])}")
         rep.count("named:feeds", len(case["feeds"]))
+        rep.count(f"exec:{case.get('mode', 'no_grad')}:{'train' if case.get('train') else 'eval'}")
         for pr in res["problems"]:
             rep.fail(pr, case)
         if "error" in res:
@@ -751,6 +880,19 @@ def judge(rep, case, res, replies):
             rep.disagree("rejected shapes: drivers/C20.lean `layer` vs _FourierLayer", case, res["text"], replies[0])
         return
     rep.count(f"{kind}:d={len(case['shape'])}:{'f32' if case['f32'] else 'f64'}")
+    rep.count(f"exec:{case.get('mode', 'no_grad')}:{'train' if case.get('train') else 'eval'}")
+    nmax = max(case["shape"])
+    rep.count("longest-axis:" + ("<=48" if nmax <= 48 else "49-128" if nmax <= 128 else "129-256" if nmax <= 256 else "257-512" if nmax <= 512 else ">512"))
+    if nmax > 128:
+        rep.count("longest-axis>128:" + ("with-model" if replies else "oracles-only"))
+    if kind == "fno":
+        rep.count(f"fno:up={case.get('up', 'default')}")
+        rep.count(f"fno:down={case.get('down', 'default')}")
+        rep.count("fno:scalar-ctor-args" if case.get("uniform") else "fno:per-layer-ctor-args")
+    if case.get("intmode"):
+        rep.count("layer:int-mode_num")
+    if case.get("bn"):
+        rep.count("layer:batchnorm-fresh-init")
     for r in set(regime(case)):
         rep.count("modes:" + r)
     if case["shape"][-1] % 2 == 0 and regime(case)[-1] != "trunc":
@@ -836,6 +978,7 @@ def replay(ctx, obj):
     inp = obj.get("failing_input") or obj.get("first")
     case = {k: v for k, v in inp["input"].items() if k in
             ("kind", "f32", "shape", "C", "B", "layer", "x", "shifts", "res", "Cin", "Cout", "layers", "upW", "upb", "downW", "downb",
+             "mode", "train", "nomodel", "intmode", "bn", "up", "down", "uniform", "upmlp", "downmlp",
              "sub", "shapes", "steps", "trig", "variant", "nets", "feeds", "data")}
     lean = common.lean_check("C20")
     run(ctx, rep, [case])
